@@ -89,6 +89,22 @@ U2F_TRUSTED = COMMON_TRUSTED + [
 ]
 
 PROPS = {
+    "C19": {
+        "modules": ["PasskeyVerif.Props.C19"],
+        "props_files": ["PasskeyVerif/Props/C19.lean"],
+        "translators": [tr_flags],
+        "harness": [["gen", "C19"]],
+        "exhaustive": True,
+        "trusted": AUTH_TRUSTED + [
+            "interleaving model (Model/Concurrent.lean): a ceremony is a sequence of atomic store / user-validation calls; its tie to the code is the correspondence below, which drives the real futures of authenticators sharing Arc<tokio::sync::Mutex<MemoryStore>> / Arc<tokio::sync::RwLock<MemoryStore>> by hand under every interleaving of each scenario (the mocks yield before every call, so the suspension points are exactly the calls)",
+            "a ceremony that does not finish within 200 further rounds of polling after its schedule is reported as stuck (deadlock)",
+        ],
+        "assumptions": ["suspension points are the store and user-validation calls (the lock wrappers take their lock per call and release it before returning); preemption inside a store call is outside the model",
+                        "credential ids drawn by concurrent registrations are distinct"],
+        "level_text": "Kernel-checked for any number of ceremonies and every schedule: each call of a ceremony makes progress without waiting for another ceremony, so a ceremony given as many turns as it has calls left (at most 5) has finished — no deadlock; on the map-like stores no call of any ceremony removes a stored credential id and a successful registration's save adds its id, so every successful registration's credential is present in the final store. The counter clause is REFUTED as stated: an assertion reports snapshot+1 whatever the store holds at its write-back (C19_assertion_reports_its_snapshot), lookups do not change the store, hence two assertions whose lookups precede both write-backs report the same counter (C19_counter_reuse); what holds is the partial statement for assertions that do not overlap (C19_sequential_counters_partial). The implementation shows the same reuse on the real lock wrappers under 1220 of the 2352 interleavings of the quick tier: recorded as a known finding (not a small repair). The model agrees with the implementation on every interleaving executed.",
+        "level_note": "Trusted: Lean kernel; axioms propext/Classical.choice/Quot.sound; the interleaving model and the hand-polled executor of the harness. Known finding C19-overlapping-assertions-reuse-a-counter.",
+        "rule": "2 lock wrappers (Arc<Mutex>, Arc<RwLock>) x 4 start counters (0, 41, 2^32-2, none) x scenarios assert/assert (20 interleavings), assert/register (35-56), register/register, assert/assert/assert and assert/register/assert (1680+ each; quick tier: first, last and 148 sampled, thorough: all up to 1700): every interleaving of the calls of the ceremonies, on the real futures.",
+    },
     "C18": {
         "modules": ["PasskeyVerif.Props.C18"],
         "props_files": ["PasskeyVerif/Props/C18.lean"],
